@@ -1,10 +1,10 @@
 \* the clauses comparing runs (both coordinate sources, with / without orientation, every mask),
 \* evaluated at every completed member list
 CONSTANT Shapes <- S_SameT
-CONSTANT MaxPieces = 3
+CONSTANT MaxPieces = 2
 CONSTANT MaskMode = "all"
 CONSTANT Tasks = {}
-CONSTANT Patterns = {"of", "if", "alt"}
+CONSTANT Patterns = {"of", "alt"}
 INIT Init
 NEXT NextGen
 INVARIANT SameForBothCoordinateSources
